@@ -52,6 +52,9 @@ func checkEquivCase(c EquivCase) (sig, what string, discard bool, nmatches int) 
 		if discard {
 			return "", "", true, 0
 		}
+		if sig == "compile-error" {
+			return "rendering-rejected", fmt.Sprintf("[%s] %s compiles, but the equivalent [%s] is rejected: %s", c.Labels[0], c.Sources[0], c.Labels[i], what), false, 0
+		}
 		if sig != "" {
 			return sig, what, false, 0
 		}
@@ -65,6 +68,9 @@ func checkEquivCase(c EquivCase) (sig, what string, discard bool, nmatches int) 
 			got, sig, what, discard := runSrc(p, c.Text)
 			if discard {
 				return "", "", true, 0
+			}
+			if sig == "compile-error" {
+				return "rendering-rejected", fmt.Sprintf("%s compiles, but its command taken alone is rejected: %s", c.Sources[0], what), false, 0
 			}
 			if sig != "" {
 				return sig, what, false, 0
@@ -272,6 +278,36 @@ func TestC13(t *testing.T) {
 			st.Count("discarded_vm_budget")
 			return
 		}
+		if sig == "" && ncmd > 1 {
+			// a definition placed *between* commands: `set gl to pattern gp <sep> gp` after the
+			// first command, used by the later ones; reference: the body written out twice
+			sep := &Node{K: KLit, S: rapid.SampledFrom([]string{"-", "a", " "}).Draw(t, "latesep")}
+			var lateRef, lateSet []string
+			lateRef = append(lateRef, inlineCmds[0])
+			lateSet = append(lateSet, setCmds[0], strings.Join(Global{Name: "gl", Body: []*Node{{K: KGlobal, S: "gp"}, sep, {K: KGlobal, S: "gp"}}}.Tokens(), " "))
+			for _, tpl := range templates[1:] {
+				var rb, sb []*Node
+				for _, n := range tpl {
+					rb = append(rb, substitute(n, func() *Node {
+						copyN += 2
+						return &Node{K: KSeq, Kids: []*Node{cloneRename(B, fmt.Sprintf("x%d", copyN-1)), sep, cloneRename(B, fmt.Sprintf("x%d", copyN))}}
+					}))
+					sb = append(sb, substitute(n, func() *Node { return &Node{K: KGlobal, S: "gl"} }))
+				}
+				lateRef = append(lateRef, renderCommand("all", rb))
+				lateSet = append(lateSet, renderCommand("all", sb))
+			}
+			c2 := EquivCase{Sources: []string{strings.Join(lateRef, " "), setDef + " " + strings.Join(lateSet, " ")},
+				Labels: []string{"written out", "pattern defined between commands"}, Text: text}
+			st.Count("late_definition_cases")
+			SetInflight(func() string { return jsonStr(Failure{Property: "C13", Kind: "equiv", Case: c2}) })
+			sig, what, discard, _ = checkEquivCase(c2)
+			ClearInflight()
+			if discard {
+				sig = ""
+			}
+			c = c2
+		}
 		if sig == "compile-error" {
 			t.Fatalf("HARNESS: %s", what)
 		}
@@ -285,7 +321,7 @@ func TestC13(t *testing.T) {
 		}
 		if hasJumps(B) && (totalRefs >= 2 || ncmd >= 2) {
 			st.NonTrivial(c.Sources[0]+"\x00"+text, func() any {
-				return map[string]any{"written_out": c.Sources[0], "set_pattern": c.Sources[2], "text": text, "matches": nm}
+				return map[string]any{"written_out": c.Sources[0], "variant": c.Sources[len(c.Sources)-1], "text": text, "matches": nm}
 			})
 		}
 	})
@@ -311,7 +347,30 @@ func TestC13History(t *testing.T) {
 			tx, _ := GenText(t, globals, body, true, 12)
 			texts = append(texts, tx)
 		}
+		// sources that are rejected after regex groups have been numbered
+		srcs = append(srcs, rapid.SampledFrom([]string{"find all @/(a)(b/", "find all @/(x)(y)/ find all (", "find all @/((a)b)c/ find all @/(/"}).Draw(t, "badsrc"))
+		bad := len(srcs) - 1
+		// expectations are taken right after a successful compile (clean global state)
+		CompileSafe("find all 'a'")
 		fresh := map[string][]MatchRec{}
+		for si := 0; si < bad; si++ {
+			for ti := range texts {
+				r, sig, what, discard := runSrc(srcs[si], texts[ti])
+				if sig == "compile-error" {
+					t.Fatalf("HARNESS: %s", what)
+				}
+				if discard || sig != "" {
+					fresh[fmt.Sprint(si, "/", ti)] = nil // crashes are C09's business
+					continue
+				}
+				if r == nil {
+					r = []MatchRec{}
+				}
+				fresh[fmt.Sprint(si, "/", ti)] = r
+			}
+		}
+		_, badErr, _ := CompileSafe(srcs[bad])
+		CompileSafe("find all 'a'")
 		freshOf := func(si, ti int) ([]MatchRec, bool) {
 			key := fmt.Sprint(si, "/", ti)
 			if r, ok := fresh[key]; ok {
@@ -340,15 +399,25 @@ func TestC13History(t *testing.T) {
 		history := []string{}
 		runsOf := map[int]int{}
 		interleaved := false
+		sawBad := false
 		t.Repeat(map[string]func(*rapid.T){
 			"compile": func(t *rapid.T) {
-				si := rapid.IntRange(0, 2).Draw(t, "src")
+				si := rapid.IntRange(0, len(srcs)-1).Draw(t, "src")
 				v, err, p := CompileSafe(srcs[si])
+				history = append(history, fmt.Sprintf("compile(%d)", si))
+				if si == bad {
+					sawBad = true
+					if p != nil || err == nil || badErr == nil || firstLine(err.Error()) != firstLine(badErr.Error()) {
+						c := map[string]any{"sources": srcs, "texts": texts, "history": history}
+						Fail(t, Failure{Property: "C13", Kind: "history", What: fmt.Sprintf("after history %v: compiling %q gave %v, a fresh compile gives %v", history, srcs[si], err, badErr), Case: c, Sig: "history-dependence"})
+					}
+					return
+				}
 				if p != nil || err != nil {
-					t.Skip("source does not compile cleanly")
+					c := map[string]any{"sources": srcs, "texts": texts, "history": history}
+					Fail(t, Failure{Property: "C13", Kind: "history", What: fmt.Sprintf("after history %v: compiling %q failed (%v, %v) although a fresh compile succeeds", history, srcs[si], err, p), Case: c, Sig: "history-dependence"})
 				}
 				progs = append(progs, prog{v, si})
-				history = append(history, fmt.Sprintf("compile(%d)", si))
 			},
 			"run": func(t *rapid.T) {
 				if len(progs) == 0 {
@@ -384,6 +453,9 @@ func TestC13History(t *testing.T) {
 				}
 			},
 		})
+		if sawBad {
+			st.Count("histories_with_rejected_compile")
+		}
 		if interleaved {
 			st.NonTrivial(strings.Join(history, ";")+strings.Join(srcs, "\x00"), func() any {
 				return map[string]any{"history": history, "sources": srcs}
@@ -410,7 +482,10 @@ func init() {
 			if n, _ := fmt.Sscanf(h, "compile(%d)", &a); n == 1 {
 				v, err, p := CompileSafe(c.Sources[a])
 				if p != nil || err != nil {
-					return "bad-replay-file", "source does not compile"
+					if a == len(c.Sources)-1 {
+						continue // the deliberately rejected source
+					}
+					return "history-dependence", fmt.Sprintf("step %s: compile failed: %v", h, err)
 				}
 				progs = append(progs, v)
 				progSrc = append(progSrc, a)
